@@ -19,9 +19,17 @@ class Boom(Exception):
     pass
 
 
+class BoomBase(BaseException):
+    """stands for KeyboardInterrupt / CancelledError: not an Exception"""
+
+
 def _res_of(exc):
     if exc is None:
         return 'ok'
+    if isinstance(exc, BoomBase):
+        return 'BoomBase'
+    if isinstance(exc, KeyError):
+        return 'KeyError'
     if isinstance(exc, Boom):
         return 'Boom'
     if isinstance(exc, ValueError):
@@ -47,6 +55,7 @@ class Runner:
         self.on_class = case.get('level') == 'class'
         self.obj = self.cls if self.on_class else self.cls()
         self.wobjs = {}          # watcher id -> Watcher object
+        self.cbs = {}            # callback id -> function (registrations may share a callback)
         self.stack = [[]]
         for w in case['watchers']:
             self._watch(w)
@@ -92,27 +101,30 @@ class Runner:
 
     # -- watchers -------------------------------------------------------------
     def _watch(self, w):
-        wid, body = w['id'], self.case['bodies'][w['body']] if w['body'] < len(self.case['bodies']) else []
+        wid, cbid = w['id'], w.get('cb', w['id'])
+        body = self.case['bodies'][w['body']] if w['body'] < len(self.case['bodies']) else []
         runner = self
-
-        def cb(*events):
-            caller = sys._getframe(2).f_code.co_name if sys._getframe(1).f_code.co_name == '_execute_watcher' else '?'
-            via = {'_call_watcher': False, '_batch_call_watchers': True}.get(caller)
-            node = {'t': 'call', 'w': wid,
-                    'evs': [[runner.names.index(e.name), int(e.old), int(e.new), e.type] for e in events],
-                    'flush': via, 'snap': [runner._val(i) for i in range(len(runner.names))], 'ch': [], 'res': None}
-            runner.stack[-1].append(node)
-            runner.stack.append(node['ch'])
-            try:
-                runner.run_stmts(body)
-                node['res'] = 'ok'
-            except Exception as e:
-                node['res'] = _res_of(e)
-                raise
-            finally:
-                runner.stack.pop()
-        self.wobjs[wid] = self.obj.param.watch(cb, [self.names[i] for i in w['params']], onlychanged=w['onlychanged'],
-                                               queued=w['queued'], precedence=w['precedence'])
+        if cbid not in self.cbs:
+            def cb(*events):
+                caller = sys._getframe(2).f_code.co_name if sys._getframe(1).f_code.co_name == '_execute_watcher' else '?'
+                via = {'_call_watcher': False, '_batch_call_watchers': True}.get(caller)
+                node = {'t': 'call', 'w': cbid,
+                        'evs': [[runner.names.index(e.name), int(e.old), int(e.new), e.type] for e in events],
+                        'flush': via, 'snap': [runner._val(i) for i in range(len(runner.names))], 'ch': [], 'res': None}
+                runner.stack[-1].append(node)
+                runner.stack.append(node['ch'])
+                try:
+                    runner.run_stmts(body)
+                    node['res'] = 'ok'
+                except BaseException as e:
+                    node['res'] = _res_of(e)
+                    raise
+                finally:
+                    runner.stack.pop()
+            self.cbs[cbid] = cb
+        self.wobjs[wid] = self.obj.param.watch(self.cbs[cbid], [self.names[i] for i in w['params']],
+                                               onlychanged=w['onlychanged'], queued=w['queued'],
+                                               precedence=w['precedence'])
 
     # -- statements -----------------------------------------------------------
     def _node(self, kind, p=0, old=0, new=0, regs=()):
@@ -140,7 +152,7 @@ class Runner:
         try:
             fn()
             node['res'] = 'ok'
-        except Exception as e:
+        except BaseException as e:
             node['res'] = _res_of(e)
             raise
         finally:
@@ -169,7 +181,7 @@ class Runner:
                 exc = None
                 try:
                     self.run_stmts(s['body'])
-                except Exception as e:
+                except BaseException as e:
                     exc = e
                 self._keys(node, [(self.names.index(n), int(v)) for n, v in restore.items()], self._flags()[1])
                 ctx.__exit__(type(exc) if exc else None, exc, None)
@@ -179,8 +191,8 @@ class Runner:
         elif k == 'trigger':
             ps = list(dict.fromkeys(s['ps']))
             node = self._node('trigger')
-            self._keys(node, [(p, 1 if p in self.events else self._val(p)) for p in ps], True)
-            self._in(node, lambda: obj.param.trigger(*[self.names[p] for p in ps]))
+            self._keys(node, [(p, 1 if p in self.events else (self._val(p) if p < len(self.names) else 0)) for p in ps], True)
+            self._in(node, lambda: obj.param.trigger(*[self._name(p) for p in ps]))
         elif k == 'batch':
             node = self._node('batch')
 
@@ -213,6 +225,8 @@ class Runner:
             self._in(node, go)
         elif k == 'raise':
             raise Boom()
+        elif k == 'raiseBase':
+            raise BoomBase()
         elif k == 'try':
             try:
                 self.run_stmts(s['body'])
@@ -230,7 +244,7 @@ class Runner:
                 res = 'ok'
             except RecursionError:
                 raise
-            except Exception as e:
+            except (Exception, BoomBase) as e:
                 res = _res_of(e)
             st = {'res': res, 'items': self.stack[0]}
             st.update(self.world())
@@ -278,13 +292,21 @@ def gen_case(rng, prop, max_params=4, max_watchers=5, faults=False, size=8):
         bounds[i], init[i] = [0, 1], 0
     level = 'class' if rng.random() < 0.2 else 'instance'
     nb = rng.randint(0, 4)
-    state = {'next_wid': 0}
+    state = {'next_wid': 0, 'shared': set(), 'made': []}
 
     def mk_watcher(body_idx, rank_limit=None):
         ps = rng.sample(range(n), rng.randint(1, min(n, 3)))
         w = {'id': state['next_wid'], 'params': ps, 'onlychanged': rng.random() < 0.6,
              'queued': rng.random() < 0.3, 'precedence': rng.choice([0, 0, 0, 1, 2, 5]), 'body': body_idx}
+        w['cb'] = w['id']
         state['next_wid'] += 1
+        return w
+
+    def twin_of(orig):
+        """a second registration of the same callback with the same options (an equal namedtuple)"""
+        w = dict(orig, id=state['next_wid'])
+        state['next_wid'] += 1
+        state['shared'].update({orig['id'], w['id']})
         return w
 
     # bodies: body j may only assign parameters with index < the minimum watched index of its users;
@@ -302,8 +324,10 @@ def gen_case(rng, prop, max_params=4, max_watchers=5, faults=False, size=8):
             kinds += ['watch', 'unwatch']
         if faults:
             kinds += ['raise', 'try', 'set']
+            if rng.random() < 0.15:
+                kinds += ['raiseBase']
         if limit == 0:
-            kinds = [k for k in kinds if k in ('batch', 'discard', 'try', 'raise')] or ['try']
+            kinds = [k for k in kinds if k in ('batch', 'discard', 'try', 'raise', 'raiseBase')] or ['try']
         k = rng.choice(kinds)
         if depth <= 0 and k in ('batch', 'discard', 'try', 'updateCtx'):
             if not limit:
@@ -321,21 +345,36 @@ def gen_case(rng, prop, max_params=4, max_watchers=5, faults=False, size=8):
             ks = rng.sample(range(limit), rng.randint(1, min(limit, 2)))
             return {'s': 'updateCtx', 'kvs': [[i, pv(i)] for i in ks], 'body': body(depth - 1, limit, in_body)}
         if k == 'trigger':
-            return {'s': 'trigger', 'ps': rng.sample(range(limit), rng.randint(1, min(limit, 2)))}
+            ps = rng.sample(range(limit), rng.randint(1, min(limit, 2)))
+            if faults and rng.random() < 0.08:
+                ps.insert(rng.randrange(len(ps) + 1), n)          # an unknown name: KeyError
+            return {'s': 'trigger', 'ps': ps}
         if k in ('batch', 'discard', 'try'):
             return {'s': k, 'body': body(depth - 1, limit, in_body)}
         if k == 'raise':
             return {'s': 'raise'}
+        if k == 'raiseBase':
+            return {'s': 'raiseBase'}
         if k == 'watch':
             return {'s': 'watch', 'w': mk_for_body()}
         if k == 'unwatch':
-            return {'s': 'unwatch', 'id': rng.randrange(max(1, state['next_wid']))}
+            # registrations that share a callback are equal as namedtuples: `unwatch` removes the first
+            # equal one, which the id-based model does not track - never unwatch those
+            cands = [i for i in range(max(1, state['next_wid'])) if i not in state['shared']]
+            return {'s': 'unwatch', 'id': rng.choice(cands) if cands else state['next_wid'] + 7}
         raise RuntimeError(k)
 
     def body(depth, limit, in_body):
         return [stmt(depth, limit, in_body) for _ in range(rng.randint(0 if in_body else 1, 3))]
 
     def mk_for_body():
+        w = _mk_for_body()
+        state['made'].append(w)
+        return w
+
+    def _mk_for_body():
+        if state['made'] and rng.random() < 0.12:
+            return twin_of(rng.choice(state['made']))
         if nb and rng.random() < 0.7:
             j = rng.randrange(nb)
             cands = [i for i in range(n) if i >= ranks[j]]
@@ -375,13 +414,32 @@ def shrink(case):
             nb = list(case['bodies'])
             nb[j] = b[:i] + b[i + 1:]
             yield dict(case, bodies=nb)
+    # registrations sharing a callback must stay identical: never shrink their attributes
+    import json as _json
+    allw = list(ws) + [st['w'] for st in _all_stmts(case) if st.get('s') == 'watch']
+    cbcount = {}
+    for w in allw:
+        cbcount[w.get('cb', w['id'])] = cbcount.get(w.get('cb', w['id']), 0) + 1
     for i, w in enumerate(ws):
+        if cbcount.get(w.get('cb', w['id']), 0) > 1:
+            continue
         if w['queued']:
             yield dict(case, watchers=ws[:i] + [dict(w, queued=False)] + ws[i + 1:])
         if w['precedence']:
             yield dict(case, watchers=ws[:i] + [dict(w, precedence=0)] + ws[i + 1:])
         if len(w['params']) > 1:
             yield dict(case, watchers=ws[:i] + [dict(w, params=w['params'][:1])] + ws[i + 1:])
+
+
+def _all_stmts(case):
+    def rec(stmts):
+        for st in stmts:
+            yield st
+            if 'body' in st:
+                yield from rec(st['body'])
+    yield from rec(case['program'])
+    for b in case['bodies']:
+        yield from rec(b)
 
 
 def walk(items):
